@@ -107,8 +107,10 @@ impl SocksListener {
                     );
                 }
                 Err(e) => {
+                    // a failed accept (connection aborted before it was accepted, descriptor or buffer
+                    // exhaustion) concerns one connection: the listener keeps listening
                     error!("{}, Accept error: {}: cause: {:?}", self.name, e, e.cause);
-                    return;
+                    tokio::time::sleep(std::time::Duration::from_millis(100)).await;
                 }
             }
         }
